@@ -360,8 +360,8 @@ func (r *Run) Finish() {
 	cov["distinct_nontrivial"] = len(r.distinct)
 	cov["rule"] = r.rule
 	samples := r.samples
-	if samples == nil {
-		samples = []any{}
+	if len(samples) == 0 {
+		samples = []any{map[string]any{"note": "no case was sampled by this run", "evaluations": r.evals}}
 	}
 	cov["samples"] = samples
 	cov["inconclusive"] = r.inconcl
